@@ -1045,26 +1045,29 @@ func callBuiltin(caller *frame, callpos token.Pos, fn *ssa.Builtin, args []value
 			// append([]byte, ...string) []byte
 			return append(args[0].([]value), strBytes(args[1])...)
 		}
-		// append([]T, ...[]T) []T
-		return append(args[0].([]value), args[1].([]value)...)
+		// append([]T, ...[]T) []T; aggregate elements are copied, not aliased
+		return append(args[0].([]value), cloneElems(args[1].([]value))...)
 
 	case "copy": // copy([]T, []T) int or copy([]byte, string) int
 		src := args[1]
 		if isStringVal(src) {
 			src = strBytes(src)
 		}
-		return copy(args[0].([]value), src.([]value))
+		return copy(args[0].([]value), cloneElems(src.([]value)))
 
 	case "close": // close(chan T)
 		close(args[0].(chan value))
 		return nil
 
 	case "delete": // delete(map[K]value, K)
+		key := caller.concKeyIn(args[0], args[1])
 		switch m := args[0].(type) {
 		case map[value]value:
-			delete(m, args[1])
+			delete(m, key)
 		case *hashmap:
-			m.delete(args[1].(hashable))
+			if h, ok := key.(hashable); ok {
+				m.delete(h)
+			}
 		default:
 			panic(fmt.Sprintf("illegal map type: %T", m))
 		}
@@ -1654,4 +1657,39 @@ func fandbits[F floaty](x, y F) F {
 		*(*uint64)(unsafe.Pointer(&x)) &= *(*uint64)(unsafe.Pointer(&y))
 	}
 	return x
+}
+
+// cloneVal copies aggregate values (structs, arrays) so that two slots never
+// share mutable storage.
+func cloneVal(v value) value {
+	switch v := v.(type) {
+	case structure:
+		o := make(structure, len(v))
+		for i := range v {
+			o[i] = cloneVal(v[i])
+		}
+		return o
+	case array:
+		o := make(array, len(v))
+		for i := range v {
+			o[i] = cloneVal(v[i])
+		}
+		return o
+	}
+	return v
+}
+
+func cloneElems(src []value) []value {
+	if len(src) == 0 {
+		return src
+	}
+	switch src[0].(type) {
+	case structure, array:
+		out := make([]value, len(src))
+		for i := range src {
+			out[i] = cloneVal(src[i])
+		}
+		return out
+	}
+	return src
 }
